@@ -111,6 +111,10 @@ pub struct Scenario {
     /// the games keep their own snapshots and save `None` data with a checksum
     #[serde(default)]
     pub own_snapshots: bool,
+    /// while a frame is stalled the game submits a DIFFERENT input on every further tick (a game that samples
+    /// the controller per tick); the first submission that was registered is the true input of the frame
+    #[serde(default)]
+    pub resubmit_varies: bool,
 }
 
 impl Scenario {
@@ -152,6 +156,7 @@ impl Scenario {
             drain: true,
             poll_only: false,
             own_snapshots: false,
+            resubmit_varies: false,
         }
     }
 }
